@@ -39,8 +39,8 @@ def storysend_variants(s, ro_txt, state, rng, pool):
                 gen.rand_item(rng, 'b2', pool, True, tag='storyItem'), gen.rich_blob(rng, 3, pool, 'storyBody')]
         others = [E('storySlug', rng.choice(pool)), E('storyNum', '3'), gen.rand_timing(rng, 'timed'),
                   gen.rich_blob(rng, 2, pool, 'mosAbstract')]
-        for pos in range(len(others) + 1):
-            fields = others[:pos] + ['BODY'] + others[pos:]
+        for pos in range(-1, len(others) + 1):
+            fields = (['BODY0'] + others) if pos < 0 else (others[:pos] + ['BODY'] + others[pos:])
             fields = [B.clone(f) if not isinstance(f, str) else f for f in fields]
             msg = B.msg_doc('roStorySend', 7, story_ref=k, body=[B.clone(b) for b in body], fields=fields,
                             pretty=rng.random() < 0.5)
@@ -51,8 +51,38 @@ def storysend_variants(s, ro_txt, state, rng, pool):
             s.step(s.load(ro_txt), msg, {'storysend': 'small-body'})
 
 
+def reuse(s, i):
+    """The same message object merged, its carried part edited by later messages,
+    then merged again into a fresh running order: what arrives must still be
+    what the message text carries (the + monitor compares against msg.xml)."""
+    from . import c13
+    rng = s.rng('reuse', i)
+    pool = gen.text_pool('plain')
+    ids = gen.Ids('U%d.' % i)
+    kind = CARRYING[i % len(CARRYING)]
+    ro_txt = gen.rand_ro(rng, n_stories=rng.randint(2, 4), pool=pool)
+    msg_txt = gen.rand_message(rng, Abs(ro_txt), kind, 50, ids, pool=pool, shape_weights=(1.0, 0, 0, 0), selfref=0)
+    ctx = {'reuse': i, 'kind': kind}
+    ro1 = s.load(ro_txt)
+    m = s.load(msg_txt)
+    ro1, err, _ = s.add(ro1, m)
+    j = s.drain_and_judge(None, ctx)
+    if err is not None or not j:
+        return
+    cur = j[-1][0]['post_xml']
+    edits = c13.followups(rng, cur, c13.carried_story_ids(msg_txt), ids, pool, rng.randint(1, 3))
+    c13.apply_all(s, ro1, cur, edits, ctx)
+    ro2 = s.load(ro_txt)
+    s.add(ro2, m)
+    s.drain_and_judge(None, ctx)
+    s.hist['reuse_cases'] += 1
+
+
 def run(s):
     K.suite_workload(s)
+    for i in range(130 if s.tier == 'quick' else 5000):
+        if s.mine(i):
+            reuse(s, i)
     n_states = 40 if s.tier == 'quick' else 1500
     per = 4 if s.tier == 'quick' else 6
     for i in range(n_states):
